@@ -34,6 +34,7 @@ def new_stream(st, faultfree=False, name="src"):
     pos = z3.Int(f"{name}_pos0")
     st.assume(pos >= 0, end >= pos)
     o.fields.update({"arr": arr, "pos": pos, "end": end, "faultfree": faultfree, "last_empty": False, "reads": 0})
+    o.pycls = object  # any file-like object that is not a socket
     return st.alloc(o)
 
 
@@ -730,4 +731,200 @@ class Next(Contract):
             canary.append(s)
             r = out.v
             eng.oblige(f"{self.qualname}.post.returns_a_frame", s, z3.BoolVal(isinstance(r, tuple) and len(r) == 2 and r[0] is not None))
+        return canary
+
+
+# ---------------------------------------------------------------------------------------
+# completeness (C02, C05, C17): ghost item partition of a well-formed stream
+# ---------------------------------------------------------------------------------------
+ISB = z3.Function("isB", z3.IntSort(), z3.BoolSort())        # p is an item boundary
+KIND = z3.Function("kind", z3.IntSort(), z3.IntSort())       # 0 noise byte, 1 UBX, 2 NMEA, 3 RTCM valid, 4 RTCM damaged
+IEND = z3.Function("iend", z3.IntSort(), z3.IntSort())       # end of the item starting at p
+NORET = z3.Function("NoRet", z3.IntSort(), z3.IntSort(), z3.BoolSort())  # no returnable item in [a, b)
+NBAD = z3.Function("NBad", z3.IntSort(), z3.IntSort(), z3.IntSort())     # number of reported-bad RTCM items in [a, b)
+# talker letters of complete NMEA sentences, pinned from the property's reading of NMEA 0183 (not read from the tree)
+TALKERS = b"VMPBDILGFSHREYACZTW"
+
+
+def item_facts(st, stream, p):
+    """Defining predicates of the item that starts at boundary p (instantiated by the engine at
+    the current position only - Appendix A)."""
+    f = st.obj(stream).fields
+    arr, end = f["arr"], f["end"]
+    b = lambda i: byte_at(st, arr, p + i)
+    k, e = KIND(p), IEND(p)
+    nl = nextlf_facts(st, stream, p + 2)
+    facts = z3.Implies(z3.And(ISB(p), p < end), z3.And(
+        k >= 0, k <= 4, e > p, e <= end, ISB(e),
+        z3.Implies(k == 0, z3.And(e == p + 1, b(0) != 0xD3, b(0) != 0xB5, b(0) != 0x24)),
+        z3.Implies(k == 1, z3.And(b(0) == 0xB5, b(1) == 0x62, e == p + 8 + b(4) + 256 * b(5))),
+        z3.Implies(k == 2, z3.And(b(0) == 0x24, z3.Or(*[b(1) == t for t in TALKERS]), nl == e - 1, e >= p + 3)),
+        z3.Implies(z3.Or(k == 3, k == 4), z3.And(b(0) == 0xD3, b(1) < 4, e == p + 6 + b(1) * 256 + b(2))),
+        z3.Implies(k == 3, int_term(sc.crc_of_value(st, SBytes([View(arr, p, e)]))) == 0),
+        z3.Implies(k == 4, int_term(sc.crc_of_value(st, SBytes([View(arr, p, e)]))) != 0),
+    ))
+    return facts
+
+
+def ret_pred(st, stream, fld, p):
+    """Ret(p): the item at p is an RTCM frame that this reader configuration returns."""
+    from contracts.message_glue import parses_ok
+    arr = st.obj(stream).fields["arr"]
+    k, e = KIND(p), IEND(p)
+    v = int_term(fld["_validate"]) % 2 == 1
+    parsed = bool_term(fld["_parsed"])
+    pok = parses_ok(st, SBytes([View(arr, p + 3, e - 3)]), fld["_labelmsm"])
+    hdrok = has_header_terms(st, arr, p + 3, e - 3)
+    is_rtcm = z3.Or(k == 3, k == 4)
+    ret = z3.And(is_rtcm, z3.Or(z3.Not(parsed), z3.And(z3.Implies(v, k == 3), hdrok, pok)))
+    bad = z3.And(is_rtcm, z3.Not(ret))
+    return ret, bad
+
+
+def has_header_terms(st, arr, lo, hi):
+    from contracts.message import has_header
+    return has_header(st, SBytes([View(arr, lo, hi)]))
+
+
+def chain_unfold(st, stream, fld, a, p):
+    ret, bad = ret_pred(st, stream, fld, p)
+    e = IEND(p)
+    return z3.And(NORET(a, e) == z3.And(NORET(a, p), z3.Not(ret)),
+                  NBAD(a, e) == NBAD(a, p) + z3.If(bad, 1, 0))
+
+
+def verify_read_complete(self, eng, inst):
+    fi = extract.func(self.qualname)
+    st = State()
+    stream = new_stream(st, faultfree=True)
+    handler = inst.endswith(":handler")
+    selfv = new_reader(st, stream, handler=handler)
+    sf = st.obj(stream).fields
+    p0, arr, end = sf["pos"], sf["arr"], sf["end"]
+    fld = st.obj(selfv).fields
+    q = int_term(fld["_quitonerror"])
+    h0 = z3.Int("hcalls0")
+    st.ghost["hcalls"] = SInt(h0)
+    st.assume(ISB(p0), NORET(p0, p0), NBAD(p0, p0) == 0)
+    H = z3.If(z3.And(q == 1, z3.BoolVal(handler)), 1, 0)
+    head = z3.Int("pos_at_loop_head")
+    Q = self.qualname
+
+    def havoc(eng_, s):
+        f = s.obj(stream).fields
+        f["pos"] = head
+        f["last_empty"] = SBool(z3.Bool("last_empty_at_loop_head"))
+        s.ghost["hcalls"] = SInt(z3.Int("hcalls_at_loop_head"))
+
+    def inv(eng_, s, k):
+        pos = spos(s, stream)
+        h = int_term(s.ghost["hcalls"])
+        return [("still_parsing", bool_term(ops.truth(s, s.env["parsing"]))),
+                ("pos_at_item_boundary", z3.And(ISB(pos), pos >= p0, pos <= end)),
+                ("no_returnable_item_skipped", NORET(p0, pos)),
+                ("handler_calls_count_bad_frames", h == h0 + H * NBAD(p0, pos)),
+                ("raise_mode_stops_at_first_bad_frame", z3.Implies(q == 2, NBAD(p0, pos) == 0))]
+
+    covered = set()
+
+    def facts(eng_, s, k):
+        return [item_facts(s, stream, head), chain_unfold(s, stream, fld, p0, head)]
+
+    _inv0 = inv
+
+    def inv(eng_, s, k):  # noqa: F811  at a back edge also record which item kinds got skipped (vacuity guard)
+        pos = spos(s, stream)
+        if not z3.eq(pos, head) and not z3.eq(pos, p0):
+            for kk, nm in ((0, "noise"), (1, "ubx"), (2, "nmea"), (3, "rtcm_valid_but_unparseable"), (4, "rtcm_damaged")):
+                eng_.cover(f"{Q}.complete.cover.skips_{nm}_item[{inst}]", s, KIND(head) == kk)
+        return _inv0(eng_, s, k)
+
+    self.loops = {0: LoopSpec(invariant=inv, havoc=havoc, facts=facts)}
+    canary = []
+    libs = lib_classes()
+    for s, out in eng.exec_function(fi, st, {"self": selfv}, contract=self):
+        pos = spos(s, stream)
+        h = int_term(s.ghost["hcalls"])
+        ret, bad = ret_pred(s, stream, fld, head)
+        obs = {"quitonerror": q, "item_kind": KIND(head), "item_len": IEND(head) - head, "validate": int_term(fld["_validate"]),
+               "parsed": bool_term(fld["_parsed"])}
+        if isinstance(out, RaiseExc):
+            eng.oblige(f"{Q}.complete.exc.raises_exactly_at_a_bad_frame_in_raise_mode[{inst}]", s,
+                       z3.And(q == 2, z3.BoolVal(out.cls in libs), bad, NORET(p0, head), pos == IEND(head), ISB(pos), h == h0),
+                       kind="exc", site=fi.lineno, observe=obs, note=f"raises {out.cls.__name__}")
+            continue
+        canary.append(s)
+        r = out.v
+        if not (isinstance(r, tuple) and len(r) == 2):
+            eng.oblige(f"{Q}.complete.post.returns_pair[{inst}]", s, False, note=repr(r))
+            continue
+        raw, msg = r
+        if raw is None:
+            eng.cover(f"{Q}.complete.cover.end_of_data_reachable[{inst}]", s, pos == end)
+            eng.oblige(f"{Q}.complete.post.none_only_when_all_items_consumed[{inst}]", s,
+                       z3.And(pos == end, NORET(p0, end), h == h0 + H * NBAD(p0, end)), site=fi.lineno, observe=obs)
+            continue
+        eng.cover(f"{Q}.complete.cover.frame_return_reachable[{inst}]", s, True)
+        eng.oblige(f"{Q}.complete.post.returns_first_returnable_item_exactly[{inst}]", s,
+                   z3.And(is_slice(raw, arr, head, IEND(head)), ret, NORET(p0, head), pos == IEND(head), ISB(pos)),
+                   site=fi.lineno, observe=obs)
+        eng.oblige(f"{Q}.complete.post.handler_called_once_per_bad_frame_in_log_mode_only[{inst}]", s,
+                   h == h0 + H * NBAD(p0, pos), site=fi.lineno, observe=obs)
+        eng.oblige(f"{Q}.complete.post.parsed_object_iff_parsing_on[{inst}]", s,
+                   z3.BoolVal(msg is None) == z3.Not(bool_term(fld["_parsed"])), site=fi.lineno, observe=obs)
+    return canary
+
+
+_old_read_verify = Read.verify
+_old_read_instances = Read.instances
+
+
+def _read_instances(self, tier):
+    return _old_read_instances(self, tier) + ["complete:handler", "complete:nohandler"]
+
+
+def _read_verify(self, eng, inst):
+    if inst.startswith("complete"):
+        return verify_read_complete(self, eng, inst)
+    return _old_read_verify(self, eng, inst)
+
+
+Read.instances = _read_instances
+Read.verify = _read_verify
+
+
+
+@register
+class ReaderInit(Contract):
+    qualname = R + ".__init__"
+
+    # a non-socket stream is stored as it is; options are stored verbatim; the stream is not touched
+    def instances(self, tier):
+        return ["filelike"]
+
+    def verify(self, eng, inst):
+        fi = extract.func(self.qualname)
+        st = State()
+        stream = new_stream(st)
+        o = HObject(R)
+        o.pycls = extract.module("pyrtcm.rtcmreader").RTCMReader
+        selfv = st.alloc(o)
+        names = ["validate", "quitonerror", "labelmsm", "bufsize", "parsed", "errorhandler", "encoding"]
+        args = {n: SInt(z3.Int(f"opt_{n}")) for n in names}
+        args["parsed"] = SBool(z3.Bool("opt_parsed"))
+        args["errorhandler"] = None
+        p0 = spos(st, stream)
+        st.writes = set()
+        canary = []
+        for s, out in eng.exec_function(fi, st, dict(self=selfv, datastream=stream, **args), contract=self):
+            if isinstance(out, RaiseExc):
+                eng.oblige(f"{self.qualname}.raises_nothing", s, False, kind="exc", note=out.cls.__name__)
+                continue
+            canary.append(s)
+            f = s.obj(selfv).fields
+            ok = (f.get("_stream") == stream and f.get("_validate") is args["validate"] and f.get("_quitonerror") is args["quitonerror"]
+                  and f.get("_labelmsm") is args["labelmsm"] and f.get("_parsed") is args["parsed"] and f.get("_errorhandler") is None)
+            eng.oblige(f"{self.qualname}.post.options_and_stream_stored_verbatim", s, z3.BoolVal(bool(ok)), note=str(sorted(f)))
+            eng.oblige(f"{self.qualname}.post.stream_not_touched", s,
+                       z3.And(spos(s, stream) == p0, z3.BoolVal(not any(w[0] == stream.oid for w in s.writes))))
         return canary
